@@ -3,6 +3,7 @@ import os, struct, sys
 from absint import Prover, Linearizer
 from lin import Lin, entails_eq
 from paths import explore
+import stdalg
 from sym import fmt, walk
 from rules.common import adt_base, Anchors, path_calls, ret_kind, arg_locs, arg_loc
 from rules.C07 import slice_parts
@@ -158,12 +159,49 @@ def r08_3(ctx):
     C, B = crc_l[0], buf_l[0]
 
     def head(l):
-        return lambda e: e[0] == 'havoc' and e[1] == (l,)
+        def h(e):
+            if e[0] == 'havoc' and e[1] == (l,):
+                return True
+            # the first 16 bytes of the remaining buffer handed to a block helper: rest.split_at(16).0, &rest[..16], &rest[0..16]
+            if l == B and e[0] == 'field' and e[2] == '0' and is_call(e[1], '::split_at') and h(e[1][2][0]) and e[1][2][1] == ('const', 16):
+                return True
+            if l == B and is_call(e, 'Index<I> for [T]>::index') and h(e[2][0]) and e[2][1][0] == 'agg':
+                fd = dict(e[2][1][2])
+                if e[2][1][1].endswith('RangeTo') and fd.get('end') == ('const', 16):
+                    return True
+                if e[2][1][1].endswith('ops::Range') and fd.get('start') == ('const', 0) and fd.get('end') == ('const', 16):
+                    return True
+            return False
+        return h
+    from absint import Prover
+    pvi = Prover(lib)
+    # the buffer cursor: the slice parameter itself or the local that walks over it
+    bl = [l for l in f.locals if l > f.arg_count and f.local_ty(l).endswith('[u8]') and f.locals[l].get('name') and any((l,) == T for h_, ts in f.loop_havoc().items() for T, _ in ts)]
+    if not any((B,) == T for h_, ts in f.loop_havoc().items() for T, _ in ts) and bl:
+        # the one whose remaining length guards the 16-byte loop
+        guards = set()
+        for p in explore(f, max_visits=1, havoc=True, limit=200):
+            for d in p.decisions:
+                if d[2][0] == 'bin' and d[2][3] in (('const', 16), ('const', 15)):
+                    for x in walk(d[2][2]):
+                        if x[0] == 'havoc' and len(x[1]) == 1 and x[1][0] in bl:
+                            guards.add(x[1][0])
+        if len(guards) == 1:
+            B = list(guards)[0]
+
+    def once(x):
+        """substitute a local single-path block helper (crc, chunk) -> crc' by its body"""
+        if x[0] == 'call' and isinstance(x[1], str) and x[1] in lib.fns and lib.fns[x[1]].local_ty(0) == 'u32':
+            t = pvi.inline_template(x[1])
+            if t is not None:
+                from sym import subst, simplify_proj
+                return simplify_proj(subst(t, {i + 1: a for i, a in enumerate(x[2])}))
+        return x
     seen_fast = seen_tail = False
     for p in explore(f, max_visits=1, havoc=True, limit=200):
         if p.end == 'cut':
             endpos = (len(p.blocks) - 2, 'T')
-            vc = p.sym.loc_value_at((C,), endpos)
+            vc = once(p.sym.loc_value_at((C,), endpos))
             vb = p.sym.loc_value_at((B,), endpos)
             terms = xor_terms(vc)
             t16 = [t for t in terms if t[0] == 'index' and t[1][0] == 'index' and t[1][1] == ('citem', 'raw::crc32_table::TABLE16')]
@@ -172,7 +210,9 @@ def r08_3(ctx):
                 guard = [d for d in p.decisions if d[2][0] == 'bin' and d[2][1] in ('Ge', 'Lt', 'Gt', 'Le') and any(x[0] == 'call' and x[1].endswith('::len') for x in walk(d[2]))]
                 okg = any((d[2][1] == 'Ge' and d[2][3] == ('const', 16) and d[3] == 1) or (d[2][1] == 'Lt' and d[2][3] == ('const', 16) and d[3] == 0) or (d[2][1] == 'Gt' and d[2][3] == ('const', 15) and d[3] == 1) for d in guard)
                 ctx.check(R, okg, 'fast-guard', 'the 16-byte step must run only while at least 16 bytes remain', fn=f)
-                okadv = is_call(vb, 'Index<I> for [T]>::index') and head(B)(vb[2][0]) and vb[2][1][0] == 'agg' and vb[2][1][1].endswith('RangeFrom') and dict(vb[2][1][2]).get('start') == ('const', 16)
+                hb = lambda e: e[0] == 'havoc' and e[1] == (B,)
+                okadv = (is_call(vb, 'Index<I> for [T]>::index') and hb(vb[2][0]) and vb[2][1][0] == 'agg' and vb[2][1][1].endswith('RangeFrom') and dict(vb[2][1][2]).get('start') == ('const', 16)) \
+                    or (vb[0] == 'field' and vb[2] == '1' and is_call(vb[1], '::split_at') and hb(vb[1][2][0]) and vb[1][2][1] == ('const', 16))
                 ctx.check(R, okadv, 'fast-advance', 'the 16-byte step must advance the buffer by exactly 16 bytes: %s' % fmt(vb)[:100], fn=f)
                 lanes = {}
                 for t in t16:
@@ -326,11 +366,11 @@ def r08_4(ctx, A, pv, masked_fn, crc_fn):
         cmpd = [d for d in p.decisions if d[2][0] == 'bin' and d[2][1] in ('Eq', 'Ne')]
         ok_cmp = False
         for d in cmpd:
-            e, val = pv.inline(d[2]), d[3]
+            e, val = stdalg.canon_value(pv.inline(d[2])), d[3]
             raw = d[2]
             if (e[1] == 'Eq' and val == 1) or (e[1] == 'Ne' and val == 0):
                 sides = [e[2], e[3]]
-                has_stored = any(s[0] == 'field' and s[1][0] == 'variant' and any(x[0] == 'field' and x[2] == 'checksum' for x in walk(s)) for s in sides)
+                has_stored = any(s[0] == 'okof' and s[1][0] == 'field' and s[1][2] == 'checksum' for s in sides)
                 has_got = any(any(x[0] == 'call' and masked_fn is not None and x[1] == masked_fn.path for x in walk(s)) for s in (raw[2], raw[3]))
                 ok_cmp = ok_cmp or (has_stored and has_got)
         ctx.check(R, ok_cmp, 'verify-compares', 'verify() returns Ok on a path that does not require stored checksum == masked CRC of the data', fn=v)
